@@ -1,2 +1,5 @@
 import GohtVerif.Model.Render
 import GohtVerif.Proofs.C06
+import GohtVerif.Proofs.C07
+import GohtVerif.Proofs.C10
+import GohtVerif.Proofs.C16
